@@ -565,14 +565,16 @@ fn c13_tiny(case: &Value, acc: &mut CompAcc) {
         acc.fail("tiny-samples", format!("TinyLFU::new({}) ages after {} accesses", nc, sn.samples));
         return;
     }
-    let keys = sketch_keys(sn.mask, sn.seeds);
-    // every sequence over 4 keys + clear, of length `len`, repeated until at least 2 resets happened
-    let nsym = 5u64;
+    // the 4 sketch keys + a hash whose doorkeeper probes all fall into the LAST word of the filter
+    let k4 = sketch_keys(sn.mask, sn.seeds);
+    let keys = [k4[0], k4[1], k4[2], k4[3], u64::MAX];
+    // every sequence over 5 keys + clear, of length `len`, repeated until at least 2 resets happened
+    let nsym = 6u64;
     let total = nsym.pow(len);
     for code in 0..total {
         acc.cases += 1;
         let mut t = VTinyLfu::new(nc).unwrap();
-        let mut counts = [0u64; 4];
+        let mut counts = [0u64; 5];
         let mut w = 0usize;
         let mut resets = 0;
         let mut seq = Vec::new();
@@ -591,9 +593,9 @@ fn c13_tiny(case: &Value, acc: &mut CompAcc) {
         for _round in 0..rounds {
             for &sym in &seq {
                 acc.ops += 1;
-                if sym == 4 {
+                if sym == 5 {
                     t.clear();
-                    counts = [0; 4];
+                    counts = [0; 5];
                     w = 0;
                     for k in keys {
                         if t.estimate(k) != 0 {
@@ -611,7 +613,7 @@ fn c13_tiny(case: &Value, acc: &mut CompAcc) {
                     // aging boundary: counters halved, doorkeeper emptied, window restarted
                     w = 0;
                     resets += 1;
-                    counts = [0; 4];
+                    counts = [0; 5];
                     let sn = t.snap();
                     if sn.w != 0 {
                         acc.fail("tiny-window-not-restarted", format!("num_counters {}: after {} recorded accesses w = {}", nc, nc, sn.w));
@@ -903,7 +905,7 @@ pub fn c07_case(case: &Value, acc: &mut CompAcc) {
                 if max <= 0 {
                     continue;
                 }
-                for inc_cost in [1i64, 3, 5] {
+                for inc_cost in [0i64, 1, 3, 5] {
                     for inc_hits in 0..=4u64 {
                         acc.cases += 1;
                         let pol = match VPolicy::detached(1024, 1_000_000, FixedState::default(), false) {
